@@ -139,6 +139,12 @@ impl<B: StarkField, H: ElementHasher<BaseField = B>> RandomCoin for DefaultRando
     /// Returns an error if a valid field element could not be generated after 1000 calls to the
     /// PRNG.
     fn draw<E: FieldElement>(&mut self) -> Result<E, RandomCoinError> {
+        // bytes of an element are read from a single digest; an element which does not fit into
+        // a digest cannot be drawn
+        if E::ELEMENT_BYTES > self.seed.as_bytes().len() {
+            return Err(RandomCoinError::FailedToDrawFieldElement(0));
+        }
+
         for _ in 0..1000 {
             // get the next pseudo-random value and take the first ELEMENT_BYTES from it
             let value = self.next();
